@@ -104,6 +104,45 @@ contract(f"{SV}.attend_subscriptions", bound="0..2 subscriptions, searches retur
                   "second_due_subscription_gets_its_own_search_result": "implies(old(len(self.subscriptions)) > 1 and due(self, 1), ghost('notify_calls')[n_due(self) - 1][0] == old_subscriptions(self)[1] and ghost('notify_calls')[n_due(self) - 1][1] == ghost('searches')[1][1])"},
          cover=["len(ghost('notify_calls')) == 2", "len(ghost('notify_calls')) == 0"], **A)
 
+# ------------------------------------------------------------------------------------------- reactive attendance (on add)
+SVR = f"{LDM}.ldm_service_reactive:LDMServiceReactive"
+
+
+def _attend_ghost(e, st, env):
+    from pyvc.values import TupleV
+    return st.ghost_append("attend_calls", TupleV([]))
+
+
+_R[f"{SV}.attend_subscriptions"].ghost_effect = _attend_ghost
+_R[f"{SV}.attend_subscriptions"].field_shapes = {"self.subscriptions": T.opaque("object")}     # post-state at call sites: some list
+def setup_reactive(e):
+    setup_attend(e)
+    from pyvc.values import Opaque
+
+    def h_maint(e2, st, o, name, args, kwargs):
+        if name != "add_provider_data":
+            raise NotImplementedError(name)
+        e2.used_assumptions.add("LDMMaintenance.add_provider_data seen from the reactive service: returns some value (C12 covers it)")
+        yield st, Opaque("object", _m._ident(e2, "object", "index"))
+    e.opaque_handlers["maintenance"] = h_maint
+
+
+SVC_R = T.obj(SVR, ldm_maintenance=T.opaque("maintenance"), data_provider_its_aid=T.symset(), data_consumer_its_aid=T.symset(),
+              subscriptions=SUBS, last_checked_subscriptions_time=T.keymap("lastmap", SUB, TS), _lock=T.opaque("rlock"),
+              lock=T.opaque("lock"), last_subscription_time=T.float())
+contract(f"{SVR}.add_provider_data", shapes={"self": SVC_R, "data": T.opaque("object")}, returns=T.opaque("object"),
+         requires=["now() >= 1072915200"], modifies=["self.subscriptions", _M, "self.last_subscription_time"],
+         ensures={"subscriptions_attended_exactly_when_half_a_second_has_passed_since_the_last_attendance":
+                  "len(ghost('attend_calls')) == (1 if ghost('mono')[0] - old(self.last_subscription_time) >= 0.5 else 0)",
+                  "an_add_that_does_not_attend_leaves_the_time_of_the_last_attendance":
+                  "implies(len(ghost('attend_calls')) == 0, self.last_subscription_time == old(self.last_subscription_time))",
+                  "an_attendance_is_timestamped_no_earlier_than_it_was_decided":
+                  "implies(len(ghost('attend_calls')) == 1, self.last_subscription_time >= ghost('mono')[0])"},
+         cover=["len(ghost('attend_calls')) == 1", "len(ghost('attend_calls')) == 0"],
+         canary={"always_attends": "len(ghost('attend_calls')) == 1"},
+         trusted=["LDMService.attend_subscriptions at the call site of the reactive add: its own contract (above) is applied; LDMMaintenance.add_provider_data is an unconstrained call on an opaque object (C12 covers it)"],
+         **dict(S, engine_setup=setup_reactive))
+
 contract(f"{SV}.delete_subscription", bound="0..2 subscriptions", shapes={"self": SVC_A, "subscription_id": T.int()}, modifies=["self.subscriptions", _M],
          inline=[f"{SV}.remove_subscription"],
          ensures={"no_subscription_with_this_id_remains": "all(hash(s.subscription_request) != subscription_id for s in self.subscriptions)",
